@@ -1300,7 +1300,7 @@ func main() {
 		special: vaxis.VerifSpecialsKeys(),
 	}
 	for _, s := range []*hx.Stream{h.oracle, h.decode, h.match, h.str, h.mstring, h.cross, h.pipe} {
-		s.ShardMax = 600
+		s.ShardMax = 1500
 	}
 	h.oracle.ShardMax = 4000
 	t0 := time.Now()
